@@ -19,6 +19,8 @@ def jobs(tier):
         bound = (1 << 64) if tier == "quick" else None
         for e in ents:
             heavy = is_heavy(e)
+            if n > 4 and is_very_heavy(e):
+                continue            # does not finish at n=8 within the 1500 s job limit: stated bound n = 4
             modes = [dict(guard=None), dict(guard="sym"), dict(guard=None, ignore=True)]
             if tier == "thorough" and n == 4:
                 modes += [dict(guard="sym", ignore=True)]
